@@ -128,13 +128,13 @@ def trivia(rng, allow_newline=True):
     for _ in range(rng.choice([1, 1, 1, 2, 3])):
         r = rng.random()
         if r < 0.45:
-            parts.append(rng.choice([" ", "  ", "\t", " \t "]))
+            parts.append(rng.choice([" ", "  ", "\t", " \t ", "\x0b", "\x0c", " \x0c\t"]))
         elif r < 0.6 and allow_newline:
             parts.append(rng.choice(["\n", "\r\n", "\n\n", " \n "]))
         elif r < 0.8:
             parts.append(rng.choice(["/**/", "/* c */", "/* * / */", "/*+*/", "/* // */", "/*/ c */", "/*/*/", "/***/", "/*//*/", "/* /* */", "/*\\*/", "/*'*/", "/*\"*/", "/*/ + 1 /*/"]))
         elif r < 0.9 and allow_newline:
-            parts.append(rng.choice(["// c\n", "//\n", "// /* \n", "/* a\n b */", "// */\n", "//'\n", "/*/\n/*/", "/*\n//\n*/", "//\\\n"]))
+            parts.append(rng.choice(["// c\n", "//\n", "// /* \n", "/* a\n b */", "// */\n", "//'\n", "/*/\n/*/", "/*\n//\n*/", "//\\\n", "// c\r", "// c\r\n", "//\r", "/* a\r b */"]))
         else:
             parts.append(" ")
     s = "".join(parts)
